@@ -109,7 +109,7 @@ func c01Fuzzy(n int, maxLimit int) {
 	}
 }
 
-func VerifHarness_C01_Fuzzy3() { c01Fuzzy(3, 2) }
+func VerifHarness_C01_Fuzzy3() { c01Fuzzy(4, 2) } // four entries: the pipeline command is among them
 func VerifHarness_C01_Fuzzy5() { c01Fuzzy(5, 3) }
 
 // legacy entry points still public on Database
